@@ -78,3 +78,18 @@ Example ex_unify_race_original :
   exists st, lrun (cinit [1; 1]) [EvCloneRead 1; EvFetchSub 0 2; EvFetchSub 1 1; EvDelete 1] = Some st /\
              destroyed st = 1 /\ quiescent st = true /\ cbad st = false.
 Proof. eexists. split; [vm_compute; reflexivity|]. auto. Qed.
+
+(** adoption of raw pointers: twice on a managed object; of an object left alive by a no-delete handle (variable 2),
+    which the default handle then destroys; [= nullptr]; assignment of the counted objects leaves the counts alone *)
+Example ex_adopt_and_assign_null :
+  let s1 := run nd2 (init 3) [ONew 0 5; OAdopt 1 0] in
+  let s2 := run nd2 (init 3) [ONew 2 5; OReset 2] in
+  let s3 := run nd2 (init 3) [ONew 2 5; OReset 2; OAdopt 0 0] in
+  let s4 := run nd2 (init 3) [ONew 2 5; OReset 2; OAdopt 0 0; OAssignNull 0] in
+  let s5 := run nd2 (init 3) [ONew 0 5; OAdopt 1 0; ONew 2 6; OObjAssign 0 2] in
+  map rc (cells s1) = [2] /\
+  cells s2 = [{| rc := 0; dcount := 0; orph := 1; val := 5 |}] /\
+  cells s3 = [{| rc := 1; dcount := 0; orph := 0; val := 5 |}] /\
+  cells s4 = [{| rc := 0; dcount := 1; orph := 0; val := 5 |}] /\ vars s4 = [Live None; Dead; Live None] /\
+  map rc (cells s5) = [2; 1].
+Proof. vm_compute. repeat split. Qed.
